@@ -48,6 +48,7 @@ func (r *RolloutReconciler) calculateRolloutStatus(rollout *v1beta1.Rollout) (re
 			newStatus.Phase = v1beta1.RolloutPhaseTerminating
 			cond := util.NewRolloutCondition(v1beta1.RolloutConditionTerminating, corev1.ConditionTrue, v1alpha1.TerminatingReasonInTerminating, "Rollout is in terminating")
 			util.SetRolloutCondition(newStatus, *cond)
+			restartFinalising(newStatus)
 		}
 		return false, newStatus, nil
 	}
@@ -57,6 +58,7 @@ func (r *RolloutReconciler) calculateRolloutStatus(rollout *v1beta1.Rollout) (re
 		if newStatus.Phase == v1beta1.RolloutPhaseProgressing {
 			newStatus.Phase = v1beta1.RolloutPhaseDisabling
 			newStatus.Message = "Disabling rollout, release resources"
+			restartFinalising(newStatus)
 		} else {
 			newStatus.Phase = v1beta1.RolloutPhaseDisabled
 			newStatus.Message = "Rollout is disabled"
@@ -158,6 +160,16 @@ func (r *RolloutReconciler) calculateRolloutStatus(rollout *v1beta1.Rollout) (re
 
 // rolloutHash mainly records the step batch information, when the user step changes,
 // the current batch can be recalculated
+// restartFinalising makes the clean-up of a rollout that starts terminating or disabling begin at the
+// first task of its own sequence: a finalising step persisted by a rollback or a completion that was
+// under way belongs to a different task order, and continuing from it would skip tasks.
+// All finalising tasks are idempotent.
+func restartFinalising(newStatus *v1beta1.RolloutStatus) {
+	if !newStatus.IsSubStatusEmpty() {
+		newStatus.GetSubStatus().FinalisingStep = ""
+	}
+}
+
 func (r *RolloutReconciler) calculateRolloutHash(rollout *v1beta1.Rollout) error {
 	var data string
 	if rollout.Spec.Strategy.IsCanaryStragegy() {
